@@ -294,6 +294,13 @@ OTHER = [
     ("blame-coloured", ["git", "blame", "--color-lines", "f.rs"],
      H8[0] + b" (A U Thor 2020-01-01 00:00:00 +0000 1) x\n\x1b[36m" + H8[0] +
      b" (A U Thor 2020-01-01 00:00:00 +0000 2)\x1b[m y\n" + H8[1] + b" (B 2021-01-01 00:00:00 +0000 3) z\n"),
+    # `git diff --word-diff`: hunk lines carry no marker column
+    ("word-diff", ["git", "diff", "--word-diff"],
+     b"diff --git a/f.txt b/f.txt\nindex 1111111..2222222 100644\n--- a/f.txt\n+++ b/f.txt\n@@ -1,3 +1,3 @@\nIntro\n"
+     b"the [-old-]{+new+} text\n\nlast\n"),
+    ("word-diff-coloured", ["git", "log", "-p", "--color-words"],
+     b"\x1b[1mdiff --git a/f.txt b/f.txt\x1b[m\n\x1b[1m--- a/f.txt\x1b[m\n\x1b[1m+++ b/f.txt\x1b[m\n\x1b[36m@@ -1,2 +1,2 @@\x1b[m\n"
+     b"Intro\nthe \x1b[31mold\x1b[m\x1b[32mnew\x1b[m text\n"),
     ("grep", ["git", "grep", "-n", "x"], b"src/a.rs:7:fn x() {\nsrc/a.rs-8-  y\n--\nsrc/b.rs:1:x\n"),
     ("grep-coloured", ["git", "grep", "-n", "x"],
      b"\x1b[35msrc/a.rs\x1b[m\x1b[36m:\x1b[m\x1b[32m7\x1b[m\x1b[36m:\x1b[mfn \x1b[1;31mx\x1b[m() {\n"),
